@@ -71,6 +71,22 @@ def run_case(case, ctx):
             ctx.nontrivial = True
     if len(uniq) >= 2:
         ctx.label("multi-interval")
+    # the map is immutable: observations do not depend on what was observed before (second, abandoned, interleaved iteration)
+    exp = sorted(m.items())
+    mode = case.get("again", 0) % 4
+    if mode == 1:
+        first = take(im, 1)
+        ctx.need(first == exp[:1], "ImmutIntervalMap/iter/wrong", lambda: "abandoned iteration gave %r expected %r" % (first, exp[:1]))
+    elif mode == 2:
+        pairs = take(zip(im, im), len(uniq) + 2)
+        ctx.need(pairs == list(zip(exp, exp)), "ImmutIntervalMap/iter/interleaved-wrong", lambda: "zip(map, map) gave %r for %r" % (pairs, exp))
+    elif mode == 3:
+        m[(max(pts) + 5, max(pts) + 6) if pts else (0, 1)] = "late"   # the source dict changes after construction
+        del m[(max(pts) + 5, max(pts) + 6) if pts else (0, 1)]
+    it = take(im, len(uniq) + 2)
+    ctx.need(it == exp, "ImmutIntervalMap/iter/wrong-after-other-observations",
+             lambda: "iteration after lookups and an earlier iteration gave %r expected %r" % (it, exp))
+    ctx.need(len(im) == len(uniq), "ImmutIntervalMap/len/wrong", lambda: "len %r expected %d" % (len(im), len(uniq)))
 
 
 def enum_small():
@@ -120,10 +136,10 @@ def strategies(tier):
     disjoint = st.lists(st.integers(0, 40), min_size=2, max_size=12, unique=True).flatmap(
         lambda ps: st.permutations([[a / 2, b / 2] for a, b in zip(sorted(ps)[0::2], sorted(ps)[1::2])]))
     case = st.one_of(
-        st.fixed_dictionaries({"ivs": st.lists(mostly_valid(ints), max_size=6), "probes": st.lists(st.integers(-1, 15), max_size=3)}),
-        st.fixed_dictionaries({"ivs": st.lists(mostly_valid(dy), max_size=6), "probes": st.lists(st.integers(-2, 58).map(lambda i: i / 4), max_size=3)}),
+        st.fixed_dictionaries({"ivs": st.lists(mostly_valid(ints), max_size=6), "probes": st.lists(st.integers(-1, 15), max_size=3), "again": st.integers(0, 3)}),
+        st.fixed_dictionaries({"ivs": st.lists(mostly_valid(dy), max_size=6), "probes": st.lists(st.integers(-2, 58).map(lambda i: i / 4), max_size=3), "again": st.integers(0, 3)}),
         st.fixed_dictionaries({"ivs": st.lists(raw(ints), max_size=4), "probes": st.just([])}),
-        st.fixed_dictionaries({"ivs": disjoint, "probes": st.lists(st.integers(-2, 82).map(lambda i: i / 4), max_size=4)}),
-        st.fixed_dictionaries({"ivs": disjoint, "probes": st.lists(st.integers(-2, 82).map(lambda i: i / 4), max_size=4)}),
+        st.fixed_dictionaries({"ivs": disjoint, "probes": st.lists(st.integers(-2, 82).map(lambda i: i / 4), max_size=4), "again": st.integers(0, 3)}),
+        st.fixed_dictionaries({"ivs": disjoint, "probes": st.lists(st.integers(-2, 82).map(lambda i: i / 4), max_size=4), "again": st.integers(0, 3)}),
     )
     return [("drawn-maps", case, 1000000 if big else 10000)]
